@@ -61,6 +61,8 @@ def check_one(rec, model, Sid, s, rng, forced=False):
         rec.violation("fields_do_not_fit_type", case, repr(e))
     forms = []
     forms.append(("uri", lambda: Sid(x.uri)))
+    forms.append(("sid_object", lambda: Sid(x)))
+    forms.append(("string_again", lambda: Sid(s) if not forced else Sid(x.uri)))
     forms.append(("copy", lambda: x.copy()))
     forms.append(("repr", lambda: eval(repr(x), {"Sid": Sid})))
     if not forced:
